@@ -33,6 +33,16 @@ def run(pid, tier, replay=None):
         return core.finish(chk, seed)
     except core.AnalysisError as e:
         print(f'ANALYSIS-ERROR property={pid}: {e}')
+        # obligations that were already decided as failing stand on their own:
+        # report them (exit 1) instead of hiding them behind the analysis error
+        try:
+            if 'chk' in locals() and not replay:
+                known = {k['key'] for k in core.load_known() if k['property'] == pid and k.get('status') == 'known'}
+                if any((not o['ok']) and o['key'] not in known for o in chk.obs):
+                    chk.extra['analysis_error'] = str(e)
+                    return core.finish(chk, int(os.environ.get('VERIF_SEED', '0') or 0))
+        except Exception:
+            traceback.print_exc()
         return 2
     except Exception:
         print(f'ANALYSIS-ERROR property={pid}: internal error')
